@@ -1358,6 +1358,11 @@ func regexpToWordMatchTree(q *query.Regexp, opt matchTreeOpt) (_ *wordMatchTree,
 	if sub[0].Op != syntax.OpWordBoundary || sub[1].Op != syntax.OpLiteral || sub[2].Op != syntax.OpWordBoundary {
 		return nil, false
 	}
+	// The parser keeps the fold flag on the literal, not on the concatenation:
+	// \b(?i:foo)\b is not a case sensitive word.
+	if sub[1].Flags&syntax.FoldCase != 0 {
+		return nil, false
+	}
 
 	// \b only means "next to a non-word byte" when the literal itself starts
 	// and ends with a word character; otherwise leave it to the regexp engine.
